@@ -26,6 +26,7 @@ def gen_cfg(i: int) -> semgen.GenCfg:
         unanchored_patterns=(i % 6 == 1),
         nonintegral_int_bounds=(i % 9 == 4),
         all_of=(i % 3 != 0),
+        boost=("allOf" if i % 4 == 1 else ("union" if i % 4 == 3 else "")),
     )
 
 
@@ -121,12 +122,12 @@ def campaign_model(ck: Check, n: int) -> None:
     rng = ck.rng.fork("model")
     reqs: list[str] = []
     meta: list[tuple] = []
+    docs: list[tuple[dict, set]] = [(d, {f"focused:{l}"}) for l, d in focused_docs()]
     for i in range(n):
-        cfg = gen_cfg(i)
-        cfg.all_of = False  # allOf is not a constructor of the Lean Schema
-        doc, feats = semgen.gen_doc(rng.fork(str(i)), cfg)
+        docs.append(semgen.gen_doc(rng.fork(str(i)), gen_cfg(i)))
+    for doc, feats in docs:
         try:
-            ssx = semlean.schema_sx(semlean.body_of(doc))
+            ssx = semlean.schema_sx(semlean.body_of(doc), top=True)
             dsx = semlean.defs_sx(doc)
         except semlean.Unmodelled as e:
             ca.unmodelled += 1
@@ -153,7 +154,7 @@ def campaign_model(ck: Check, n: int) -> None:
                 reqs.append(f"sem.tr {st} {r} top {ssx}")
                 meta.append(("tr", doc, st, r, None))
                 for dn, ds in (doc.get("definitions") or {}).items():
-                    reqs.append(f"sem.tr {st} {r} top {semlean.schema_sx(ds)}")
+                    reqs.append(f"sem.tr {st} {r} top {semlean.schema_sx(ds, top=True)}")
                     meta.append(("tr", doc, st, r, dn))
             for r in ("contype", "field"):
                 for jx, lab, x in enc:
@@ -245,7 +246,9 @@ def campaign_model(ck: Check, n: int) -> None:
 
 
 # ============================================================ (d) the property oracle
-def causes_for(doc: dict, inst: Any, style: str) -> str:
+def causes_for(doc: dict, inst: Any, style: str, oracle: str = "valid_rejected") -> str:
+    if oracle == "dump_mismatch" and style == "v1" and union_str_before_number(doc):
+        return "v1_union_left_to_right"
     if comma_pattern_in_union(doc):
         return "comma_in_pattern_in_union"
     if nonintegral_exclusive_on_integer(doc):
@@ -316,7 +319,7 @@ def oracle_doc(ck: Check, camp, doc: dict, target: tuple, insts: list | None = N
             if kind == "dataclasses.dataclass":
                 d = _drop_absent_nones(d, inst)
             if semgen.canon(d) != semgen.canon(inst):
-                ck.fail({**base, "oracle": "dump_mismatch", "mechanism": "value_changed", "cause": cause}, {**inp, "instance": inst}, f"dump by wire name differs: {semgen.canon(d)[:300]} vs instance {semgen.canon(inst)[:300]}")
+                ck.fail({**base, "oracle": "dump_mismatch", "mechanism": "value_changed", "cause": causes_for(doc, inst, style, "dump_mismatch")}, {**inp, "instance": inst}, f"dump by wire name differs: {semgen.canon(d)[:300]} vs instance {semgen.canon(inst)[:300]}")
         for inst, ap in extra_cases:
             camp.evaluations += 1
             camp.hit(f"undeclared_member:{ap}")
@@ -483,9 +486,9 @@ def run(ck: Check) -> None:
         "dataclass output has no aliases and no 'unset' state: documents with non-identifier member names are not sent to the dataclass target, and members that are absent in the instance (they dump as their default) are not counted as a difference",
         "pydantic-v1-style output runs on the pydantic.v1 shim of pydantic 2.x",
     ]
-    campaign_model(ck, 60 if quick else 400)
+    campaign_model(ck, 40 if quick else 400)
     campaign_focused(ck)
-    campaign_random(ck, 90 if quick else 900)
+    campaign_random(ck, 70 if quick else 900)
     ck.search_hooks.append(search)
     known_findings(ck)
 
